@@ -10,8 +10,13 @@ KERNELS = GEN_FUNCS[:2]
 LEVEL_TEXT = ("Theorems about the keyframe kernels regenerated from io.py on every run: valid_key_mask writes exactly (0 <= key < nkey); reset_keyframe_data writes, for a valid world, time/qpos/qvel/"
               "ALL na activations/mocap poses/ctrl from the keyframe row and nothing else, and nothing at all for an invalid world; composed with reset_nworld the state is 'fresh then keyframe'. "
               "Invalid-key worlds keep their state, but their CONTACTS can be affected through reset_data's nacon/world-0 coupling (witnesses; known finding shared with C13). "
-              "The real function is compared with mujoco.mj_resetDataKeyframe on random keys (sampled); scalar key validation is exercised.")
-LEVEL_NOTE = "C14_partial: inherits C13's open findings (history not reset; contact bookkeeping of unselected worlds). Host glue (ValueError for invalid scalar keys / wrong shapes) is tested, not proved."
+              "The real function is compared with mujoco.mj_resetDataKeyframe (full integration state minus history) on models rotated over the size regimes of the copy "
+              "(each of nmocap / nu / na / nq the strict maximum of the loop bounds, mocap-only, time-only, random counts; 1/2/3/5 keyframes with random, partly omitted fields), per-world key arrays "
+              "rotated over all-valid / mixed / boundary- and far-invalid / all-invalid after per-world ctrl+mocap histories, and with valid scalar keys (int, np.int32, np.int64); "
+              "invalid scalars and malformed key arrays must raise and leave the state unchanged (sampled).")
+LEVEL_NOTE = ("C14_partial: inherits C13's open findings (history not reset; contact bookkeeping of unselected worlds). The theorems are per task of the copy kernel; that the host launches one task "
+              "per world (or per element) covering ALL five ranges is not in Gen (reset_data_keyframe is not a host-extractor entry) and is covered by the size-regime rotation of the oracle only. "
+              "Host glue (ValueError for invalid scalar keys / wrong key-array shape or dtype) is tested, not proved.")
 ASSUMPTIONS = ["MuJoCo oracle: mj_resetDataKeyframe on the same model; compared through get_state(INTEGRATION) minus history"]
 
 XML = """
@@ -35,61 +40,245 @@ XML = """
 """
 
 
+_DCMOTOR = 'motorconst="0.05" resistance="2.0" damping="0.001" lugre="1e4 100 0.005 0.008 0.1" inductance="0 0.001"'
+_JNQ = {"slide": (1, 1), "hinge": (1, 1), "ball": (4, 3), "free": (7, 6)}
+# size regimes forced in rotation: which of the five loop bounds of the keyframe copy (nq, nv<=nq, na, nu, nmocap) is the STRICT maximum,
+# plus the degenerate ones.  (joints, actuator kinds, nmocap range); actuator kinds: m = stateless motor, i = integrator, f = filter,
+# d = dcmotor (2 activations for 1 control, so na > nu)
+REGIMES = [
+  ("base", None),
+  ("nmocap-max", dict(joints=[["slide"], ["hinge"]], acts=["", "i", "m"], nmocap=(2, 5))),
+  ("mocap-only", dict(joints=[[]], acts=[""], nmocap=(2, 5))),
+  ("nu-max", dict(joints=[["hinge"], ["slide"]], acts=["mm", "mmm", "mim"], nmocap=(0, 1))),
+  ("na-max", dict(joints=[["slide"]], acts=["d", "dd", "df"], nmocap=(0, 1))),
+  ("nq-max", dict(joints=[["free"], ["ball", "slide"], ["free", "hinge"]], acts=["", "m", "f"], nmocap=(0, 2))),
+  ("time-only", dict(joints=[[]], acts=[""], nmocap=(0, 0))),
+  ("random", None),
+]
+
+
+def _fmt(a):
+  return " ".join(f"{float(x):.4g}" for x in np.asarray(a).reshape(-1))
+
+
+def _gen_xml(rng, spec, nkey, full_keys):
+  """random MJCF without contacts for a size regime; keyframes carry random values (every field explicit when `full_keys`,
+  otherwise each field is omitted with probability 0.25, i.e. the compiler fills in the default pose / zeros)"""
+  joints = spec["joints"][int(rng.integers(len(spec["joints"])))]
+  acts = spec["acts"][int(rng.integers(len(spec["acts"])))]
+  nmocap = int(rng.integers(spec["nmocap"][0], spec["nmocap"][1] + 1))
+  g = '<geom size=".05" contype="0" conaffinity="0" mass="1"/>'
+  bodies = []
+  for i in range(nmocap):
+    bodies.append(f'<body name="mc{i}" mocap="true" pos="{_fmt(rng.uniform(-2, 2, 3))}" quat="{_fmt(rng.normal(size=4))}">{g}</body>')
+  nq = nv = 0
+  for i, jt in enumerate(joints):
+    j = "<freejoint/>" if jt == "free" else f'<joint name="j{i}" type="{jt}"/>'
+    bodies.append(f'<body name="b{i}" pos="{i} 0 1">{j}{g}</body>')
+    nq += _JNQ[jt][0]; nv += _JNQ[jt][1]
+  tgt = [f"j{i}" for i, jt in enumerate(joints) if jt in ("slide", "hinge")]
+  al = []
+  nu = na = 0
+  for c in acts if tgt else "":
+    jn = tgt[int(rng.integers(len(tgt)))]
+    if c == "d":
+      al.append(f'<dcmotor joint="{jn}" {_DCMOTOR}/>'); na += 2
+    elif c == "m":
+      al.append(f'<motor joint="{jn}"/>')
+    else:
+      al.append(f'<general joint="{jn}" dyntype="{"integrator" if c == "i" else "filter"}" dynprm="0.1"/>'); na += 1
+    nu += 1
+  keys = []
+  for k in range(nkey):
+    fields = {"time": rng.uniform(0.1, 5, 1)}
+    qp = []
+    for jt in joints:
+      if jt == "free":
+        qp += list(rng.uniform(-1, 1, 3))
+      if jt in ("free", "ball"):
+        qp += list(rng.normal(size=4))
+      if jt in ("slide", "hinge"):
+        qp += list(rng.uniform(-1, 1, 1))
+    if nq:
+      fields["qpos"] = qp
+      fields["qvel"] = rng.uniform(-1, 1, nv)
+    if na:
+      fields["act"] = rng.uniform(-1, 1, na)
+    if nu:
+      fields["ctrl"] = rng.uniform(-1, 1, nu)
+    if nmocap:
+      fields["mpos"] = rng.uniform(-2, 2, 3 * nmocap)
+      fields["mquat"] = rng.normal(size=4 * nmocap)
+    if not full_keys:
+      fields = {f: v for f, v in fields.items() if rng.random() > 0.25}
+    keys.append("<key " + " ".join(f'{f}="{_fmt(v)}"' for f, v in fields.items()) + "/>")
+  return (f'<mujoco><option timestep="0.01"/><worldbody><geom type="plane" size="3 3 .1" contype="0" conaffinity="0"/>{"".join(bodies)}</worldbody>'
+          f'<actuator>{"".join(al)}</actuator><keyframe>{"".join(keys)}</keyframe></mujoco>')
+
+
+def _argmax_class(mjm):
+  """which of the loop bounds of the keyframe copy is the strict maximum (the class a size-dependent launch/loop fault lives in)"""
+  sizes = {"nq": mjm.nq, "na": mjm.na, "nu": mjm.nu, "nmocap": mjm.nmocap}
+  top = max(sizes.values())
+  if top == 0:
+    return "all-zero"
+  w = [n for n, v in sizes.items() if v == top]
+  return w[0] if len(w) == 1 else "tie:" + "=".join(w)
+
+
+def _key_array(rng, mode, nworld, nkey):
+  """per-world key array; modes forced in rotation: 0 all valid (every key if room) / 1, 3 random in [-1, nkey] / 2 a valid and a
+  boundary-invalid world guaranteed / 4 all invalid incl. far values"""
+  if mode == 0:
+    off = int(rng.integers(nkey))
+    keys = [(off + w) % nkey for w in range(nworld)]
+  elif mode == 4:
+    keys = [[-1, nkey, nkey + 7, -(2 ** 31), 2 ** 31 - 1][int(rng.integers(5))] for _ in range(nworld)]
+  else:
+    keys = [int(x) for x in rng.integers(-1, nkey + 1, size=nworld)]
+    if mode == 2 and nworld >= 2:    # either of the two may be world 0
+      i, j = rng.permutation(nworld)[:2]
+      keys[i] = int(rng.integers(nkey)); keys[j] = [-1, nkey, 2 ** 31 - 1][int(rng.integers(3))]
+  return np.array(keys, dtype=np.int64).astype(np.int32)
+
+
 def _run(ctx, ncases, rec):
   import mujoco
   import warp as wp
   import mujoco_warp as mjw
   rng = np.random.default_rng(ctx.seed * 1000 + 14)
   acc = Acc()
-  mjm = mujoco.MjModel.from_xml_string(XML)
+  base = mujoco.MjModel.from_xml_string(XML)
+
+  def model_for(c):
+    name, spec = REGIMES[c % len(REGIMES)]
+    if name == "base":
+      return name, base, True
+    full = True
+    if name == "random":
+      spec = dict(joints=[[], ["slide"], ["hinge", "slide"], ["ball"], ["free", "slide"], ["slide", "slide", "hinge"]],
+                  acts=["", "m", "i", "f", "d", "mf", "dm", "imf", "mmmm"], nmocap=(0, 4))
+      full = False
+    nkey = [2, 1, 3, 5][(c + c // len(REGIMES)) % 4]
+    return name, mujoco.MjModel.from_xml_string(_gen_xml(rng, spec, nkey, full)), full
+
+  def compare(mjm, row, k, sig, hist):
+    """state of one world after the call vs mj_resetDataKeyframe (exact copy semantics: the only rounding is float64 -> float32)"""
+    ref = mujoco.MjData(mjm)
+    mujoco.mj_resetDataKeyframe(mjm, ref, k)
+    want = np.zeros(row.shape[0])
+    mujoco.mj_getState(mjm, ref, want, sig)
+    got = row.copy()
+    got[hist[0]:hist[1]] = 0; want[hist[0]:hist[1]] = 0   # history: C13/C30 finding, compared there
+    want = want.astype(np.float32)
+    ok = np.isclose(got, want, rtol=2e-7, atol=1e-6)
+    return np.nonzero(~ok)[0]
+
+  def segment(mjm, idx):
+    """name of the mjtState component a state index falls in (for the finding text)"""
+    lo = 0
+    for b in range(13):
+      hi = mujoco.mj_stateSize(mjm, (1 << (b + 1)) - 1)
+      if lo <= idx < hi:
+        return mujoco.mjtState(1 << b).name.replace("mjSTATE_", "").lower()
+      lo = hi
+    return "?"
 
   def scenario():
     for c in range(ncases):
-      nworld = int(rng.integers(1, 4))
+      regime, mjm, full = model_for(c)
+      nkey = mjm.nkey
+      nworld = int(rng.integers(1, 4)) if regime == "base" else int(rng.integers(2, 6))
       m = mjw.put_model(mjm)
       d = mjw.make_data(mjm, nworld=nworld)
-      d.ctrl.assign(rng.normal(size=(nworld, mjm.nu)).astype(np.float32))
-      for _ in range(int(rng.integers(1, 5))):
+      # history: per-world controls and mocap targets, then a few steps
+      if mjm.nu:
+        d.ctrl.assign(rng.normal(size=(nworld, mjm.nu)).astype(np.float32))
+      if mjm.nmocap and regime != "base":
+        d.mocap_pos.assign(rng.uniform(-3, 3, size=(nworld, mjm.nmocap, 3)).astype(np.float32))
+        q = rng.normal(size=(nworld, mjm.nmocap, 4)); q /= np.linalg.norm(q, axis=-1, keepdims=True)
+        d.mocap_quat.assign(q.astype(np.float32))
+      for _ in range(int(rng.integers(1, 5)) if regime == "base" else int(rng.integers(1, 3))):
         mjw.step(m, d)
-      keys = rng.integers(-1, mjm.nkey + 1, size=nworld).astype(np.int32)
+      keys = _key_array(rng, (c + c // len(REGIMES)) % 5, nworld, nkey) if regime != "base" else rng.integers(-1, nkey + 1, size=nworld).astype(np.int32)
       before, sig = get_full_state(mjw, m, d, mjm)
+      if not np.isfinite(before).all():
+        acc.hit("skipped: non-finite history")
+        continue
       con_before = [world_contacts(d, w) for w in range(nworld)]
       mjw.reset_data_keyframe(m, d, wp.array(keys, dtype=int))
       after, _ = get_full_state(mjw, m, d, mjm)
       con_after = [world_contacts(d, w) for w in range(nworld)]
       acc.evals += 1
-      acc.distinct.add(tuple(keys.tolist()))
+      acc.distinct.add((regime, mjm.nq, mjm.na, mjm.nu, mjm.nmocap, nkey) + tuple(keys.tolist()))
+      acc.hit("regime " + regime)
+      acc.hit("largest size " + _argmax_class(mjm))
+      acc.hit(f"nkey {nkey}")
       hist = (mujoco.mj_stateSize(mjm, (1 << 4) - 1), mujoco.mj_stateSize(mjm, (1 << 5) - 1))
+      sizes = dict(nq=int(mjm.nq), nv=int(mjm.nv), na=int(mjm.na), nu=int(mjm.nu), nmocap=int(mjm.nmocap), nkey=int(nkey))
+      valid = [0 <= int(k) < nkey for k in keys]
+      acc.hit("key array all valid" if all(valid) else "key array all invalid" if not any(valid) else "key array mixed")
+      if mjm.nmocap and any(valid):
+        # is the keyframe's mocap pose really different from the default pose in every slot (otherwise reset_data alone gives it)?
+        k0 = int(keys[valid.index(True)])
+        dflt = mjm.body_pos[np.nonzero(mjm.body_mocapid >= 0)[0]]
+        if np.all(np.abs(mjm.key_mpos[k0].reshape(-1, 3) - dflt).max(axis=1) > 1e-3):
+          acc.hit("mocap keyframe pose != body pose in every slot")
       for w in range(nworld):
         k = int(keys[w])
-        if 0 <= k < mjm.nkey:
-          ref = mujoco.MjData(mjm)
-          mujoco.mj_resetDataKeyframe(mjm, ref, k)
-          want = np.zeros(after.shape[1])
-          mujoco.mj_getState(mjm, ref, want, sig)
-          got = after[w].copy()
-          got[hist[0]:hist[1]] = 0; want[hist[0]:hist[1]] = 0   # history: C13/C30 finding, compared there
-          if not np.allclose(got, want.astype(np.float32), atol=1e-6):
-            bad = np.nonzero(~np.isclose(got, want.astype(np.float32), atol=1e-6))[0]
-            acc.find(f"world {w} after reset_data_keyframe(key={k}) differs from mj_resetDataKeyframe at state indices {bad[:6].tolist()}", "io.reset_data_keyframe", "vs-mujoco",
-                     keys=keys.tolist(), world=w)
+        if valid[w]:
+          bad = compare(mjm, after[w], k, sig, hist)
+          if len(bad):
+            acc.find(f"world {w} after reset_data_keyframe(key={k}) differs from mj_resetDataKeyframe at state indices {bad[:6].tolist()} "
+                     f"({sorted({segment(mjm, int(i)) for i in bad})}; sizes {sizes})", "io.reset_data_keyframe", "vs-mujoco",
+                     keys=keys.tolist(), world=w, regime=regime, sizes=sizes)
           acc.hit("valid")
         else:
           if not np.array_equal(after[w], before[w]):
-            acc.find(f"world {w} with invalid key {k} had its state changed", "io.reset_data_keyframe", "invalid-touched", keys=keys.tolist(), world=w)
+            acc.find(f"world {w} with invalid key {k} had its state changed", "io.reset_data_keyframe", "invalid-touched", keys=keys.tolist(), world=w,
+                     regime=regime, sizes=sizes)
           if con_after[w] != con_before[w]:
             lost = len(con_after[w]) < len(con_before[w])
             acc.find(f"world {w} with invalid key {k}: contacts changed ({len(con_before[w])} -> {len(con_after[w])})", "io.reset_data",
                      "nacon-world0" if lost else "phantom-contact", keys=keys.tolist(), world=w)
           acc.hit("invalid")
-      for bad in (-1, mjm.nkey, mjm.nkey + 3):
+      # scalar key, valid: python int / numpy integer in rotation; every world must equal mj_resetDataKeyframe
+      ks = int(rng.integers(nkey))
+      karg = [ks, np.int32(ks), np.int64(ks)][c % 3]
+      mjw.step(m, d)
+      mjw.reset_data_keyframe(m, d, karg)
+      after, _ = get_full_state(mjw, m, d, mjm)
+      acc.evals += 1
+      acc.hit("scalar valid " + type(karg).__name__)
+      for w in range(nworld):
+        bad = compare(mjm, after[w], ks, sig, hist)
+        if len(bad):
+          acc.find(f"world {w} after reset_data_keyframe(scalar key={ks}) differs from mj_resetDataKeyframe at state indices {bad[:6].tolist()} "
+                   f"({sorted({segment(mjm, int(i)) for i in bad})}; sizes {sizes})", "io.reset_data_keyframe", "vs-mujoco-scalar",
+                   key=ks, world=w, regime=regime, sizes=sizes)
+          break
+      if any(world_contacts(d, w) for w in range(nworld)):
+        acc.find(f"contacts reported after resetting every world to key {ks}", "io.reset_data_keyframe", "scalar-contacts-kept", key=ks, regime=regime)
+      # scalar key, invalid: must raise and must not touch anything
+      for bad in (-1, nkey, nkey + 3):
         try:
           mjw.reset_data_keyframe(m, d, bad)
           acc.find(f"scalar key {bad} accepted", "io.reset_data_keyframe", "scalar-accepted", key=bad)
         except ValueError:
           pass
         acc.evals += 1
-      acc.sample({"nworld": nworld, "keys": keys.tolist()})
+      # malformed key arrays (documented ValueError): wrong length, non-integer dtype
+      for what, arr in (("shape", wp.zeros(nworld + 1, dtype=int)), ("dtype", wp.zeros(nworld, dtype=float))):
+        try:
+          mjw.reset_data_keyframe(m, d, arr)
+          acc.find(f"key array with wrong {what} accepted", "io.reset_data_keyframe", "array-accepted", what=what)
+        except ValueError:
+          pass
+        acc.evals += 1
+      still, _ = get_full_state(mjw, m, d, mjm)
+      if not np.array_equal(still, after):
+        acc.find("a rejected key changed the state", "io.reset_data_keyframe", "rejected-touched", regime=regime)
+      acc.sample({"regime": regime, "sizes": sizes, "nworld": nworld, "keys": keys.tolist()})
 
   if rec:
     kc, _ = intercept(KERNELS, scenario, rng, max_tids=8, per_kernel=4)
@@ -99,15 +288,19 @@ def _run(ctx, ncases, rec):
   return acc, kc
 
 
-RULE = ("model with mocap, na>nu, two keyframes; 1-3 worlds, a few steps, then reset_data_keyframe with a random per-world key array in [-1, nkey]; valid worlds vs mj_resetDataKeyframe "
-        "(state minus history), invalid worlds vs their state/contacts before; scalar invalid keys must raise; distinct = distinct key arrays")
+RULE = ("models rotated over size regimes of the keyframe copy (base model with contacts/mocap/na>nu; generated contact-free models in which nmocap, nu, na (dcmotor) or nq is the strict "
+        "maximum of the loop bounds, mocap-only, time-only, random counts with partly omitted key fields), nkey rotated over 2/1/3/5 with random key values; per-world ctrl and "
+        "mocap targets + a few steps as history; reset_data_keyframe with a per-world key array (rotation: all valid / random / valid+boundary-invalid / all invalid incl. +-2^31) : "
+        "valid worlds vs mj_resetDataKeyframe (full integration state minus history, float32-exact), invalid worlds vs their state/contacts before; then a valid scalar key "
+        "(int / np.int32 / np.int64) on every world vs mj_resetDataKeyframe and no contacts left; invalid scalars and malformed key arrays must raise and change nothing; "
+        "distinct = distinct (regime, sizes, key array)")
 
 
 def correspondence(ctx):
-  acc, kc = _run(ctx, 30 if ctx.thorough else 8, True)
+  acc, kc = _run(ctx, 48 if ctx.thorough else 16, True)
   return result(acc, RULE, kc=kc)
 
 
 def search(ctx, breaks):
-  acc, _ = _run(ctx, 80, False)
+  acc, _ = _run(ctx, 96, False)
   return search_result(acc, "mujoco.mj_resetDataKeyframe + untouched invalid worlds + scalar key rejection")
